@@ -205,11 +205,16 @@ fn huge_contexts<S: PS>(ctx: &Ctx, acc: &mut Acc, pk_b: &[u8], sk_b: &[u8]) {
     let m = [0u8; 24];
     let lens: [usize; 12] = [1 << 24, (1 << 24) + 7, 1 << 31, (1 << 31) + 100, (1 << 32) - 1, 1 << 32, (1 << 32) + 1, (1 << 32) + 100, (1 << 32) + 255, (1 << 32) + 256, (1 << 32) + 511, (1 << 32) + 512];
     let v0 = acc.violations.len();
+    // correct code answers these probes without touching the buffer (microseconds). If one length takes seconds,
+    // the buffer is being hashed: the remaining, larger probes would only cost minutes each and are skipped
+    // (this steers the workload only; it is never a verdict)
+    let mut slow = false;
     for &n in &lens {
         // one violation is enough: on a tree that lets huge contexts through every further probe hashes gigabytes
-        if acc.violations.len() > v0 {
+        if acc.violations.len() > v0 || slow {
             break;
         }
+        let t_probe = std::time::Instant::now();
         let cx = z.get(n);
         for mode in MODES {
             acc.eval();
@@ -228,11 +233,15 @@ fn huge_contexts<S: PS>(ctx: &Ctx, acc: &mut Acc, pk_b: &[u8], sk_b: &[u8]) {
                 Err(pi) => panic_violation(acc, "C07", "verify", "ctxlen-huge", &pi, replay("verify-zero-sig")),
             }
         }
+        if t_probe.elapsed().as_secs() >= 4 {
+            slow = true;
+            acc.count("huge_ctx_probes_cut_short_because_the_buffer_is_being_read", 1);
+        }
     }
     // replay of a short-context signature with a 2^32-byte longer context (pure mode): the honest
     // encoding of (ctx = 0^r, M = 0^(2^32) || 0^24) equals the wrapped-length encoding of
     // (ctx = 0^(2^32 + r), M = 0^24). One set per run in quick (4 GiB are hashed once), all in thorough.
-    if acc.violations.len() > v0 {
+    if acc.violations.len() > v0 || slow {
         return;
     }
     if ctx.thorough() || !ctx.checked_build() && (ctx.seed % 3) as usize == [44u32, 65, 87].iter().position(|&s| s == p.set).unwrap_or(0) {
